@@ -168,6 +168,13 @@ func (a *remoteAuthorizer) Execute(ctx heimdall.Context, sub *subject.Subject) e
 		}
 	}
 
+	if authInfo != nil {
+		// the cached response may have been verified using the expressions of another rule
+		if err = a.verify(ctx, authInfo.Payload); err != nil {
+			return err
+		}
+	}
+
 	if authInfo == nil {
 		authInfo, err = a.doAuthorize(ctx, sub, vals, payload)
 		if err != nil {
